@@ -168,3 +168,107 @@ func verifCondSig(c vk.RCond) string {
 	sort.Strings(l)
 	return s + "[" + strings.Join(l, ",") + "]"
 }
+
+// verifMinimize greedily removes rules, conditions and values while bad(p) holds.
+func verifMinimize(p *vk.RProg, bad func(*vk.RProg) bool) *vk.RProg {
+	clone := func(p *vk.RProg) *vk.RProg {
+		q := &vk.RProg{Fallback: p.Fallback}
+		for _, r := range p.Rules {
+			nr := vk.RRule{Out: r.Out}
+			for _, c := range r.Conds {
+				nc := vk.RCond{Func: c.Func, Not: c.Not, Params: append([]vk.RParam(nil), c.Params...)}
+				nr.Conds = append(nr.Conds, nc)
+			}
+			q.Rules = append(q.Rules, nr)
+		}
+		return q
+	}
+	cur := clone(p)
+	for changed := true; changed; {
+		changed = false
+		for i := 0; i < len(cur.Rules); i++ {
+			q := clone(cur)
+			q.Rules = append(q.Rules[:i], q.Rules[i+1:]...)
+			if bad(q) {
+				cur, changed = q, true
+				i--
+			}
+		}
+		for i := range cur.Rules {
+			for j := 0; j < len(cur.Rules[i].Conds); j++ {
+				if len(cur.Rules[i].Conds) == 1 {
+					break
+				}
+				q := clone(cur)
+				q.Rules[i].Conds = append(q.Rules[i].Conds[:j], q.Rules[i].Conds[j+1:]...)
+				if bad(q) {
+					cur, changed = q, true
+					j--
+				}
+			}
+			for j := range cur.Rules[i].Conds {
+				for k := 0; k < len(cur.Rules[i].Conds[j].Params); k++ {
+					if len(cur.Rules[i].Conds[j].Params) == 1 {
+						break
+					}
+					q := clone(cur)
+					ps := q.Rules[i].Conds[j].Params
+					q.Rules[i].Conds[j].Params = append(ps[:k], ps[k+1:]...)
+					if bad(q) {
+						cur, changed = q, true
+						k--
+					}
+				}
+			}
+		}
+	}
+	return cur
+}
+
+func verifProgShape(p *vk.RProg) string {
+	var l []string
+	for _, r := range p.Rules {
+		l = append(l, r.ShapeSig())
+	}
+	return strings.Join(l, ";")
+}
+
+type verifPipeline struct {
+	name string
+	opts func() []routing.RulesOptimizer
+}
+
+func verifPipelines() []verifPipeline {
+	return []verifPipeline{
+		{"alias-only", func() []routing.RulesOptimizer { return []routing.RulesOptimizer{&routing.AliasOptimizer{}} }},
+		{"production", verifProductionOptimizers},
+	}
+}
+
+// verifCheckProgram compiles text through one pipeline and compares all packets.
+// Returns the first mismatching packet (or build error).
+func verifCheckProgram(p *vk.RProg, pl verifPipeline, pkts []vk.RPkt, onEval func(k vk.RPkt, ref vk.RDecision)) (bad *vk.RPkt, got vk.RDecision, err error) {
+	rules, fb, err := verifParseRouting(p.Text())
+	if err != nil {
+		return nil, got, err
+	}
+	b, err := verifBuildMatcher(rules, fb, pl.opts()...)
+	if err != nil {
+		return nil, got, err
+	}
+	for i := range pkts {
+		ref := vk.RefRoute(p, pkts[i])
+		d, rerr := verifRoute(b, pkts[i])
+		if onEval != nil {
+			onEval(pkts[i], ref)
+		}
+		if rerr != nil {
+			return &pkts[i], vk.RDecision{Outbound: "ERROR: " + rerr.Error()}, nil
+		}
+		if !verifSameDecision(ref, d) {
+			return &pkts[i], d, nil
+		}
+	}
+	return nil, got, nil
+}
+
